@@ -689,7 +689,7 @@ fn main() {
     }
     if args.replay.is_none() {
         let mut rng = Rng::new(args.seed);
-        let n = args.cases.unwrap_or(if args.thorough { 40000 } else { 1500 });
+        let n = args.cases.unwrap_or(if args.thorough { 30000 } else { 1500 });
         for i in 0..n {
             let c = gen_case(&mut rng);
             if i < 4 {
